@@ -294,7 +294,7 @@ struct C03State {
   C03Prog p;
   PMutex *m = nullptr, *m0 = nullptr; PCondVariable *not_empty = nullptr, *not_full = nullptr, *gate_cv = nullptr;
   vector<int> queue; vector<int> consumed; int produced_total = 0; int to_consume = 0;
-  bool gate_open = false; int passed = 0;
+  bool gate_open = false; int passed = 0; int turn = 0;
   int holder = -1; // shadow: who is inside the mutex-protected section
   long try_true = 0, try_false = 0;
 };
@@ -344,6 +344,19 @@ void *c03_consumer(void *arg) {
     g.consumed.push_back(g.queue.front());
     g.queue.erase(g.queue.begin());
     if (g.p.out) { c03_unlock(); c03_wake(g.not_full, g.p.nf); } else { c03_wake(g.not_full, g.p.nf); c03_unlock(); }
+  }
+  return NULL;
+}
+// "pp": T threads pass a token round-robin over ONE condition variable: every thread waits for its own predicate (turn == me) on the same
+// condition variable its predecessor signals through, and the thread that has just woken the next one goes straight back to waiting
+void *c03_pp_thread(void *arg) {
+  long me = (long)arg; C03State &g = *g3;
+  vs::point(false);
+  for (int r = 0; r < g.p.items; r++) {
+    c03_lock();
+    while (g.turn != (int)me) c03_wait(g.gate_cv);
+    g.turn = (int)((me + 1) % g.p.waiters); g.passed++;
+    if (g.p.out) { c03_unlock(); c03_wake(g.gate_cv, g.p.gate); } else { c03_wake(g.gate_cv, g.p.gate); c03_unlock(); }
   }
   return NULL;
 }
@@ -648,6 +661,11 @@ void run_child(const Case &c) {
       if (cs != want) child_fail("exchange", "consumed items differ from produced items (lost or duplicated event)");
       // per-producer FIFO order
       std::map<int, int> last; for (int v : g.consumed) { int p = v / 1000; if (last.count(p) && last[p] > v) child_fail("exchange", "items of one producer consumed out of order"); last[p] = v; }
+    } else if (g.p.shape == "pp") {
+      if (g.p.waiters > 2) g.p.gate = 'b';   // with more than two parties a signal may wake the wrong one: broadcast is the correct protocol
+      for (long i = 0; i < g.p.waiters; i++) { pthread_t t; vs_pthread_create(&t, NULL, c03_pp_thread, (void *)i); th.push_back(t); }
+      vs::finish_all();
+      if (g.passed != g.p.waiters * g.p.items) child_fail("exchange", "token passing over one condition variable did not complete");
     } else {
       PMutex *m2 = p_mutex_new();
       for (int ph = 0; ph < g.p.phases; ph++) {
@@ -851,7 +869,8 @@ rc::Gen<Case> genC03() {
     os << "bb cap=" << std::get<0>(t) << " prod=" << std::get<1>(t) << " items=" << std::get<2>(t) << " cons=" << cons << " ne=" << std::get<4>(t) << " nf=" << std::get<5>(t) << " out=" << std::get<6>(t) << " try=" << ((std::get<0>(t) + std::get<1>(t) + std::get<2>(t)) % 3 == 0 ? 1 : 0);
     return os.str(); });
   auto gate = gen::map(gen::tuple(rng(2, 5), gen::element('b', 's'), rng(0, 2), rng(1, 4)), [](const std::tuple<int, char, int, int> &t) { std::ostringstream os; os << "gate waiters=" << std::get<0>(t) << " gate=" << std::get<1>(t) << " out=" << std::get<2>(t) << " phases=" << std::get<3>(t) << " try=" << ((std::get<0>(t) + std::get<3>(t)) % 2); return os.str(); });
-  return gen::map(gen::tuple(gen::oneOf(bb, gate), genScheduleLong(), rng(0, 3), rng(0, 4)), [](const std::tuple<string, vector<uint8_t>, int, int> &x) {
+  auto pp = gen::map(gen::tuple(rng(2, 4), rng(1, 4), gen::element('b', 's'), rng(0, 2), rng(0, 2)), [](const std::tuple<int, int, char, int, int> &t) { std::ostringstream os; os << "pp waiters=" << std::get<0>(t) << " items=" << std::get<1>(t) << " gate=" << std::get<2>(t) << " out=" << std::get<3>(t) << " try=" << std::get<4>(t); return os.str(); });
+  return gen::map(gen::tuple(gen::weightedOneOf<string>({{3, bb}, {2, gate}, {2, pp}}), genScheduleLong(), rng(0, 3), rng(0, 4)), [](const std::tuple<string, vector<uint8_t>, int, int> &x) {
     Case c; c.prop = "C03"; c.prog = std::get<0>(x); c.sched = std::get<1>(x); c.spurious = std::get<2>(x) != 0; c.budget = std::get<3>(x); return c; });
 }
 rc::Gen<Case> genC04() {
@@ -947,7 +966,7 @@ vector<Case> shapes_for(const string &prop) {
     v.push_back(shape("dsched C02\nobj w\nT X0.1.- R0.1.-\nT x0.1.-\nT r0.1.-\n"));
     v.push_back(shape("dsched C02\nopt spurious=1 budget=2\nobj w\nT x0.1.-\nT r0.1.-\nT x0.1.-\n"));
   } else if (prop == "C03") {
-    for (const char *p : {"bb cap=1 prod=1 items=2 cons=1 ne=s nf=s", "bb cap=1 prod=2 items=1 cons=2 ne=s nf=s", "bb cap=2 prod=1 items=3 cons=2 ne=b nf=s", "bb cap=1 prod=2 items=1 cons=2 ne=b nf=b out=1", "bb cap=2 prod=2 items=2 cons=2 ne=s nf=s out=1", "gate waiters=2 gate=b", "gate waiters=3 gate=b out=1", "gate waiters=2 gate=s phases=2", "gate waiters=2 gate=b try=1"}) {
+    for (const char *p : {"bb cap=1 prod=1 items=2 cons=1 ne=s nf=s", "bb cap=1 prod=2 items=1 cons=2 ne=s nf=s", "bb cap=2 prod=1 items=3 cons=2 ne=b nf=s", "bb cap=1 prod=2 items=1 cons=2 ne=b nf=b out=1", "bb cap=2 prod=2 items=2 cons=2 ne=s nf=s out=1", "gate waiters=2 gate=b", "gate waiters=3 gate=b out=1", "gate waiters=2 gate=s phases=2", "gate waiters=2 gate=b try=1", "pp waiters=2 items=2 gate=s", "pp waiters=3 items=1 gate=b"}) {
       Case c; c.prop = "C03"; c.prog = p; v.push_back(c);
       Case d = c; d.spurious = true; d.budget = 2; v.push_back(d);
     }
